@@ -212,8 +212,9 @@ Section Tables.
     | c :: r => if (c =? 47)%N then Some ([], r)
                 else match cut_slash r with Some (a, b) => Some (c :: a, b) | None => None end
     end.
-  Definition parse_rpc_name (s : bytes) : option (bytes * bytes) :=
-    cut_slash (match s with 47%N :: r => r | _ => s end).
+  Definition strip_slash (s : bytes) : bytes :=
+    match s with c :: r => if (c =? 47)%N then r else s | [] => [] end.
+  Definition parse_rpc_name (s : bytes) : option (bytes * bytes) := cut_slash (strip_slash s).
 
   (* ---- whole-router state machine ---- *)
   Record rstate := { st_watch : list bytes; st_closed : list bytes (* unused *); st_pt : ptable; st_st : sstate3 }.
